@@ -8,6 +8,7 @@ import (
 	"net"
 	"os"
 	"path/filepath"
+	"sort"
 	"strings"
 	"sync/atomic"
 	"testing"
@@ -766,6 +767,14 @@ func newC09H(c *c09Case) (*c09H, error) {
 		h.open, _ = h.n.Serf.Query("harness-open", []byte("x"), &serf.QueryParam{RequestAck: !c.OpenNoAck, Timeout: time.Hour})
 	}
 	h.n.Drain(node.Settle)
+	// the event pipeline is first-in first-out: once a canary has come out,
+	// everything the setup caused (member joins, the open query delivered to
+	// the local application) has come out too
+	if !h.canary() {
+		h.cleanup()
+		return nil, fmt.Errorf("setup: canary not delivered")
+	}
+	h.fx = map[string]bool{}
 	h.nw.Packets()
 	h.lb.Take()
 	return h, nil
@@ -1027,6 +1036,68 @@ func c09Labels(in *c09In) []string {
 	return append(out, in.E+"/"+d)
 }
 
+// c09Malformed tells, independently of what the node logs, whether an input is
+// one its entry point has to ignore as a whole: a gossip message of a type
+// NotifyMsg does not take, or whose body (or relay header) does not decode; a
+// state sync of the wrong type or that does not decode; a probe ack of another
+// version or whose coordinate does not decode.
+func c09Malformed(in *c09In, noCoord bool) (bool, string) {
+	dec := func(out any) bool { return serf.VerifDecodeMessage(in.B[1:], out) != nil }
+	switch in.E {
+	case "msg":
+		if len(in.B) == 0 {
+			return true, "empty"
+		}
+		switch in.B[0] {
+		case serf.VerifMessageLeaveType:
+			return dec(&serf.VerifMessageLeave{}), "undecodable-leave"
+		case serf.VerifMessageJoinType:
+			return dec(&serf.VerifMessageJoin{}), "undecodable-join"
+		case serf.VerifMessageUserEventType:
+			return dec(&serf.VerifMessageUserEvent{}), "undecodable-event"
+		case serf.VerifMessageQueryType:
+			return dec(&serf.VerifMessageQuery{}), "undecodable-query"
+		case serf.VerifMessageQueryResponseType:
+			return dec(&serf.VerifMessageQueryResponse{}), "undecodable-response"
+		case serf.VerifMessageRelayType:
+			var h serf.VerifRelayHeader
+			return codec.NewDecoder(bytes.NewReader(in.B[1:]), &codec.MsgpackHandle{}).Decode(&h) != nil, "undecodable-relay-header"
+		default:
+			return true, "type-not-gossip"
+		}
+	case "merge":
+		if len(in.B) == 0 || in.B[0] != serf.VerifMessagePushPullType {
+			return true, "not-a-state-sync"
+		}
+		return dec(&serf.VerifMessagePushPull{}), "undecodable-state-sync"
+	case "ping":
+		if noCoord || len(in.B) == 0 {
+			return false, ""
+		}
+		if in.B[0] != serf.PingVersion {
+			return true, "ping-version"
+		}
+		var c coordinate.Coordinate
+		return codec.NewDecoder(bytes.NewReader(in.B[1:]), &codec.MsgpackHandle{}).Decode(&c) != nil, "undecodable-coordinate"
+	}
+	return false, ""
+}
+
+// c09State is what a node's bookkeeping looks like from outside: clocks,
+// member table, queue depths, own coordinate.
+func c09State(s *serf.Serf) string {
+	m, e, q := s.VerifClocks()
+	st := s.Stats()
+	var ms []string
+	for _, mm := range s.Members() {
+		ms = append(ms, fmt.Sprintf("%q/%v/%v:%d/%v", mm.Name, mm.Status, mm.Addr, mm.Port, mm.Tags))
+	}
+	sort.Strings(ms)
+	coord, _ := s.GetCoordinate()
+	return fmt.Sprintf("clocks %d/%d/%d members %s failed %s left %s queues %s/%s/%s table %v coord %v", m, e, q,
+		st["members"], st["failed"], st["left"], st["intent_queue"], st["event_queue"], st["query_queue"], ms, coord)
+}
+
 func bodyC09(c c09Case, x *vkit.Ctx) {
 	h, err := newC09H(&c)
 	if err != nil {
@@ -1050,7 +1121,22 @@ func bodyC09(c c09Case, x *vkit.Ctx) {
 			x.Label("open-query-closed-by-application")
 		}
 		coordBefore, _ := h.n.Serf.GetCoordinate()
+		malformed, mclass := c09Malformed(in, c.NoCoord)
+		var stateBefore string
+		if malformed {
+			stateBefore = c09State(h.n.Serf)
+		}
 		h.inject(in)
+		if malformed {
+			// "malformed input is ignored": nothing of it may reach the node's
+			// bookkeeping (the entry points reject it before any handler runs, so
+			// this can be read off at once) ...
+			if stateAfter := c09State(h.n.Serf); stateAfter != stateBefore {
+				x.Violationf("malformed-input-applied:"+mclass, "input %d (%s/%s, %s) is malformed (%s) yet changed the node's state\n before: %s\n after:  %s", i, in.E, in.D, hexShort(in.B), mclass, stateBefore, stateAfter)
+				return
+			}
+			x.Label("malformed-ignored:" + mclass)
+		}
 		if in.E == "ping" && len(in.B) > 0 && in.B[0] != serf.PingVersion && !c.NoCoord {
 			// "malformed input is ignored": a probe ack of an unsupported version
 			// must not move the node's coordinate
@@ -1074,6 +1160,17 @@ func bodyC09(c c09Case, x *vkit.Ctx) {
 			}
 			x.Violationf("node-stopped-serving:"+in.E, "after input %d (%s/%s, %s): %s\nlog: %s", i, in.E, in.D, hexShort(in.B), why, tailStr(log, 1500))
 			return
+		}
+		if malformed && !c.Coalesce {
+			// ... or the application (without coalescing the event pipeline is
+			// first-in first-out: everything earlier inputs caused came out before
+			// the previous canary)
+			for f := range h.fx {
+				if f == "user-event-delivered" || f == "query-delivered" || strings.HasPrefix(f, "member-event:") {
+					x.Violationf("malformed-input-delivered:"+mclass, "input %d (%s/%s, %s) is malformed (%s) yet the application received something: %s\nlog: %s", i, in.E, in.D, hexShort(in.B), mclass, f, tailStr(log, 800))
+					return
+				}
+			}
 		}
 		for _, l := range c09Labels(in) {
 			x.Label(l)
